@@ -33,7 +33,7 @@ type Out struct {
 	States     []string         `json:"states,omitempty"` // digests of distinct states/interleavings reached
 	SimMs      int64            `json:"sim_ms,omitempty"`
 	Sample     interface{}      `json:"sample,omitempty"`
-	Trace      string           `json:"trace,omitempty"` // event-log digest (determinism self-test)
+	Trace      string           `json:"trace,omitempty"`    // event-log digest (determinism self-test)
 	Schedule   []int            `json:"schedule,omitempty"` // recorded scheduling choices of a concurrent run
 }
 
